@@ -78,7 +78,7 @@ def run_raw(peer, kind, base, maxrep, replies, env=None):
     return out
 
 
-def run_sync(peer, kind, base, maxrep, replies, env=None, use_fetch=False, allow_bulk=True, abandon_after=None):
+def run_sync(peer, kind, base, maxrep, replies, env=None, use_fetch=False, allow_bulk=True, abandon_after=None, pre=False):
     """the sync iterator classes (GetNextIter / GetBulkIter / SnmpSession.fetch) over a socket shim"""
     env = env or e2e.env()
     conv = e2e.Conv(peer, env)
@@ -86,6 +86,10 @@ def run_sync(peer, kind, base, maxrep, replies, env=None, use_fetch=False, allow
     state = {"step": 0}
 
     def script(op, req):
+        if state.get("pre"):
+            # the walk the caller abandons before the walk under test: a full page below its own base
+            names = [tuple(req["varbinds"][0][0]) + (i,) for i in range(1, 7)]
+            return [peer.response(req, [ber.varbind(n, ber.INT(9000 + i)) for i, n in enumerate(names)])]
         out.requests.append(req)
         rep = replies[state["step"]] if state["step"] < len(replies) else None
         state["step"] += 1
@@ -93,6 +97,11 @@ def run_sync(peer, kind, base, maxrep, replies, env=None, use_fetch=False, allow
     shim = e2e.SockShim(conv, script)
     from gufo.snmp.sync_client.getbulk import GetBulkIter
     from gufo.snmp.sync_client.getnext import GetNextIter
+    if pre and peer.kind != "v1":
+        state["pre"] = True
+        pit = GetBulkIter(shim, "1.3.6.1.4.1.99999.7", 6)
+        e2e.ncall(lambda: (next(pit), next(pit)))      # two rows, then the caller `break`s
+        state["pre"] = False
 
     def mk():
         if use_fetch:
